@@ -17,6 +17,7 @@ pub static DEF: PropDef = PropDef {
     ],
     run,
     replay,
+    fuzz: Some(fuzz_one),
 };
 
 const FNM_CASEFOLD: i32 = 1 << 4;
@@ -110,6 +111,13 @@ fn features(p: &str) -> Features {
                 i += 1;
             }
             '[' => {
+                // a backslash between this '[' and the next ']' (wherever the expression really
+                // ends): implementations disagree on whether it quotes inside a bracket expression
+                if let Some(close) = c[i + 1..].iter().skip(1).position(|ch| *ch == ']') {
+                    if c[i + 1..i + 2 + close].contains(&'\\') {
+                        f.excluded.get_or_insert("backslash inside bracket expression");
+                    }
+                }
                 // find the end of a bracket expression
                 let mut j = i + 1;
                 if j < c.len() && (c[j] == '!' || c[j] == '^') {
@@ -195,13 +203,20 @@ fn features(p: &str) -> Features {
                                     f.excluded.get_or_insert("range with '-' as an endpoint");
                                 }
                                 let kind = |ch: char| if ch.is_ascii_lowercase() { 1 } else if ch.is_ascii_uppercase() { 2 } else { 0 };
-                                if kind(lo) != kind(hi) {
+                                let overlaps = |a: char, b: char| lo <= b && a <= hi;
+                                let covers = |a: char, b: char| lo <= a && b <= hi;
+                                let partial_letters = (overlaps('A', 'Z') && !covers('A', 'Z')) || (overlaps('a', 'z') && !covers('a', 'z')) || (covers('A', 'Z') != covers('a', 'z'));
+                                if kind(lo) != kind(hi) || (kind(lo) == 0 && partial_letters) {
                                     f.casefold_open = true;
                                 }
                                 if !lo.is_ascii() || !hi.is_ascii() {
                                     f.excluded.get_or_insert("range with a non-ASCII endpoint (collation)");
                                 }
                                 k += 3;
+                                // "[a-m-o]": POSIX leaves a range whose end point starts another range undefined
+                                if k + 1 < body.len() && body[k] == '-' {
+                                    f.excluded.get_or_insert("range directly followed by '-' (undefined in POSIX)");
+                                }
                             } else {
                                 k += 1;
                             }
@@ -617,4 +632,19 @@ fn replay(w: &mut Worker, sub: &str, v: Value) -> Outcome {
     } else {
         check_pat(&mut w.ctx, &decode(v))
     }
+}
+
+/// libFuzzer entry: pattern = bytes up to the first NUL, subject = the rest (both read as UTF-8,
+/// lossily); the subject's one-edit neighbours are tried too.  Oracle: no panic, and agreement
+/// with fnmatch on the compared domain.
+pub fn fuzz_one(data: &[u8]) -> Option<crate::engine::Violation> {
+    static LOCALE: std::sync::Once = std::sync::Once::new();
+    LOCALE.call_once(set_locale);
+    let data = &data[..data.len().min(300)];
+    let cut = data.iter().position(|b| *b == 0).unwrap_or(data.len());
+    let pattern = String::from_utf8_lossy(&data[..cut]).into_owned();
+    let subject = String::from_utf8_lossy(&data[(cut + 1).min(data.len())..]).replace('\0', "");
+    let mut subjects = vec![subject.clone(), format!("{subject}x"), format!("x{subject}"), format!("{subject}\n"), pattern.clone()];
+    subjects.dedup();
+    crate::engine::violation_of(compare(&pattern, &subjects))
 }
